@@ -267,4 +267,46 @@ theorem get_none_of_not_mem_keys (o : Obj) (f : Key) (h : f ∉ keys o) : get o 
     simp only [h1, Bool.false_eq_true, ↓reduceIte]; exact ih h.2
 
 
+/-- an original field named in the conditionals is carried over with its stored value, mentioned or not -/
+theorem fold_carry_get_conditional (cond : List Key) (og : Obj) (st : Obj × List Key) (f : Key) (v : Val)
+    (hog : get og f = some v) (hc : cond.contains f = true) (hnd : (keys og).Nodup) :
+    get (og.foldl (carry cond) st).1 f = some v := by
+  induction og generalizing st with
+  | nil => simp [get_nil] at hog
+  | cons p ps ih =>
+    rw [List.foldl_cons]
+    have hnd' : (keys ps).Nodup := by
+      have : keys (p :: ps) = p.1 :: keys ps := rfl
+      rw [this] at hnd; exact (List.nodup_cons.1 hnd).2
+    rw [get_cons] at hog
+    by_cases hp : p.1 = f
+    · have h1 : (p.1 == f) = true := by simp [hp]
+      simp only [h1, ↓reduceIte, Option.some.injEq] at hog
+      have hlater : get ps f = none := by
+        have : keys (p :: ps) = p.1 :: keys ps := rfl
+        rw [this] at hnd
+        have hnot := (List.nodup_cons.1 hnd).1
+        cases hg : get ps f with
+        | none => rfl
+        | some w =>
+          exfalso; apply hnot
+          unfold get at hg
+          cases hfind : List.find? (fun x => x.1 == f) ps with
+          | none => simp [hfind] at hg
+          | some q =>
+            have hq := List.mem_of_find?_eq_some hfind
+            have hqf : q.1 = f := by simpa using List.find?_some hfind
+            rw [hp, ← hqf]; exact List.mem_map_of_mem hq
+      rw [fold_carry_get_absent _ _ _ _ hlater]
+      unfold carry
+      rw [hp, hc]
+      by_cases hh : has st.1 f = true
+      · simp only [hh, Bool.not_true, Bool.false_eq_true, ↓reduceIte]
+        rw [get_set_self, hog]
+      · simp only [hh, Bool.not_false, ↓reduceIte]
+        rw [get_set_self, hog]
+    · have h1 : (p.1 == f) = false := by simp [hp]
+      simp only [h1, Bool.false_eq_true, ↓reduceIte] at hog
+      exact ih _ hog hnd'
+
 end Dvid.NJ
